@@ -278,7 +278,7 @@ def run(tier, V):
     for td in (-2, -1, 0, 1, 2):
         for i in range(0, len(lines), 2000):
             jobs.append((exe, td, lines[i:i + 2000], R2L, NEUT))
-    res = pmap(check_dir, jobs)
+    res = pmap(check_dir, jobs, procs=True)
     nd = sum(r[0] for r in res)
     nmod = sum(r[1] for r in res)
     nontriv = sum(r[2] for r in res)
@@ -291,7 +291,7 @@ def run(tier, V):
     W = c17.Widths()
     sub = lines[::7]
     jobs = [(exe, (o, td, lim), sub[i:i + 800], W) for o in (1, 2) for td in (-2, 0, 1) for lim in (3, 256) for i in range(0, len(sub), 800)]
-    res = pmap(c17.check_lines, jobs)
+    res = pmap(c17.check_lines, jobs, procs=True)
     nren = sum(r[0] for r in res)
     for r in res:
         for key, what, wit in r[2]:
@@ -314,7 +314,7 @@ def run(tier, V):
     for _ in range(400 if tier == 'quick' else 5000):
         slines.append(''.join(R.choice([chr(x) for x in sorted(letters)] + ['ّ', 'َ', '‌', '‍', 'ـ', ' ', 'a', '1', 'é', 'ﺑ', '؟']) for _ in range(R.randint(1, 12))))
     jobs = [(exe, sh, slines[i:i + 3000], letters) for sh in (1, 0) for i in range(0, len(slines), 3000)]
-    res = pmap(check_shape, jobs)
+    res = pmap(check_shape, jobs, procs=True)
     ns = sum(r[0] for r in res)
     nshaped = sum(r[1] for r in res)
     for r in res:
